@@ -476,9 +476,26 @@ DynArray* dyn_array_clone(DynArray* arr) {
         return NULL;
     }
     
+    /* dyn_array_new() leaves a struct array without element size and storage
+     * (both are set by the first push): give the copy the source's layout. */
+    if (arr->elem_type == ELEM_STRUCT && arr->elem_size > 0) {
+        new_arr->elem_size = arr->elem_size;
+        new_arr->data = malloc(new_arr->capacity * new_arr->elem_size);
+        if (new_arr->data == NULL) {
+            gc_release(new_arr);
+            return NULL;
+        }
+    }
+
     /* Reserve capacity and copy data */
     dyn_array_reserve(new_arr, arr->length);
-    memcpy(new_arr->data, arr->data, arr->length * arr->elem_size);
+    if (new_arr->capacity < arr->length) {
+        gc_release(new_arr);
+        return NULL;
+    }
+    if (arr->length > 0) {
+        memcpy(new_arr->data, arr->data, arr->length * arr->elem_size);
+    }
     new_arr->length = arr->length;
     
     return new_arr;
